@@ -151,6 +151,73 @@ def special(acc, tier):
                 hits = sum(1 for e in procs[0].log if type(e).__name__ == "CacheHitEvent")
                 acc.counters[f"cache_hits[{name},{runner},run{round_}]"] = hits
                 check_exec(acc, x, procs, {"family": "cached:" + name, "program": pp, "inputs": inputs, "extra": {}, "faults": [], "eh": "raise", "mode": f"{runner}-cached-run{round_}", "choices": [], "special": "cache"})
+    # the cache backend fails: EVERY get and EVERY set of a cached program as the failing backend operation (first and second run)
+    class CacheBoom(Exception):
+        pass
+
+    class FaultyCache(InMemoryCache):
+        def __init__(self, fail=None):
+            super().__init__()
+            self.fail = fail  # None | ("get"|"set", k)
+            self.n = {"get": 0, "set": 0}
+            self.hit = 0
+
+        def _op(self, op):
+            i = self.n[op]
+            self.n[op] += 1
+            if self.fail == (op, i):
+                self.hit += 1
+                raise CacheBoom(f"cache {op} #{i} failed")
+
+        def get(self, key):
+            self._op("get")
+            return super().get(key)
+
+        def set(self, key, value):
+            self._op("set")
+            return super().set(key, value)
+
+    for name, p, dec in progs:
+        p = copy.deepcopy(p)
+        for s in T.all_specs(p):
+            if s["kind"] in ("fn", "ifelse", "route"):
+                s["cache"] = True
+            if s["kind"] in ("ifelse", "route"):
+                s["behav"] = {"seq": [dec]}
+        inputs = dict(ins)
+        if name == "mapped":
+            inputs["x"] = [["i", 0], ["i", 1]]
+        for runner in ("sync", "async"):
+            pp = T.set_async(p, runner == "async")
+            pf = (lambda h: [Rec(), ARec(h)]) if runner == "async" else (lambda h: [Rec()])
+            for warm in (False, True):
+                probe = FaultyCache()
+                if warm:
+                    _exec(pp, inputs, {}, runner, frozenset(), "raise", None, pf, False, cache=probe)
+                    probe.n = {"get": 0, "set": 0}
+                _exec(pp, inputs, {}, runner, frozenset(), "raise", None, pf, False, cache=probe)
+                counts = dict(probe.n)
+                for op in ("get", "set"):
+                    for k in range(counts[op]):
+                        for eh in ("raise", "continue"):
+                            c = FaultyCache()
+                            if warm:
+                                _exec(pp, inputs, {}, runner, frozenset(), "raise", None, pf, False, cache=c)
+                                c.n = {"get": 0, "set": 0}
+                            c.fail = (op, k)
+                            x, procs = _exec(pp, inputs, {}, runner, frozenset(), eh, None, pf, False, cache=c)
+                            acc.evaluations += 1
+                            acc.traces += 1
+                            if not c.hit:
+                                acc.counters["cache_fault_not_reached"] += 1
+                                continue
+                            acc.counters["cache_backend_faults"] += 1
+                            top = "failed" if x.exc is not None else x.result.status.value
+                            w = {"family": "cache-fails:" + name, "program": pp, "inputs": inputs, "extra": {}, "faults": [], "eh": eh, "mode": f"{runner}-cache-{op}{k}-{'warm' if warm else 'cold'}", "choices": [], "special": "cache-fails"}
+                            for r in procs:
+                                for sym, msg in span_tree_violations(r.log, top_status=top):
+                                    acc.violation({"symptom": sym, "processor": repr(r), "backend_fault": op}, w, f"cache {op} #{k} raises ({'second' if warm else 'first'} run): " + msg)
+                                acc.key(tuple(canon_stream(r.log)))
     # output collection fails after every node succeeded (selected output of the branch not taken, on_missing='error')
     for runner in ("sync", "async"):
         for eh in ("raise", "continue"):
